@@ -111,7 +111,7 @@ class Def:
 
 class Compiled:
     def __init__(self, d):
-        ats = []
+        ats = [((10, 10),), ((9, 9),)]     # newline and tab are always classes of their own (locations)
         for _, rules in d.rulesets:
             for r in rules:
                 R.atoms(r.regex, ats)
